@@ -15,23 +15,35 @@ def string_escape_text(crate, b, writer_fn_path):
 
     Composes ESCAPE[b] -> CharEscape::from_escape_table -> write_*_char_escape by constant
     propagation; returns ("raw", None) | ("esc", bytes) | ("error", reason)."""
-    esc = crate.static_bytes("print::ESCAPE")
-    if esc is None or len(esc) != 256:
-        return "error", "print::ESCAPE missing"
-    e = esc[b]
-    if e == 0:
-        return "raw", None
-    fet = crate.fn("print::CharEscape::from_escape_table")
     wr = crate.fn(writer_fn_path)
-    if fet is None or wr is None:
-        return "error", "anchor missing: from_escape_table / %s" % writer_fn_path
-    fwd = common.sink_forwarders(crate)
-    S = sim.Sim([crate])
-    rets, others = _ret_one(S, fet, {1: e, 2: b})
+    # the classifier byte -> CharEscape: an inherent function of CharEscape over u8 arguments, either
+    # (table entry, byte) -> CharEscape with the table lookup at the call site, or byte -> Option<CharEscape>
+    cands = [f for f in crate.fns if f.kind == "assoc" and not f.impl_trait and (f.self_ty or "").endswith("print::CharEscape")
+             and 1 <= f.arg_count <= 2 and all(f.local_ty(i) == "u8" for i in range(1, f.arg_count + 1))
+             and "CharEscape" in f.local_ty(0)]
+    if len(cands) != 1 or wr is None:
+        return "error", "anchor missing: the byte classifier of print::CharEscape (%d candidates) / %s" % (len(cands), writer_fn_path)
+    fet = cands[0]
+    S = sim.Sim([crate], inline=lex.print_inline(crate))
+    if fet.arg_count == 2:
+        esc = crate.static_bytes("print::ESCAPE")
+        if esc is None or len(esc) != 256:
+            return "error", "print::ESCAPE missing"
+        if esc[b] == 0:
+            return "raw", None
+        rets, others = _ret_one(S, fet, {1: esc[b], 2: b})
+    else:
+        rets, others = _ret_one(S, fet, {1: b})
     if len(rets) != 1 or not isinstance(rets[0].ret, Adt):
-        return "error", "from_escape_table(%d, %d) does not yield one variant (%s)" % (e, b, [p.end for p in others])
+        return "error", "%s(0x%02X) does not yield one variant (%s)" % (fet.path, b, [p.end for p in others])
+    if rets[0].ret.adt.endswith("Option"):
+        if rets[0].ret.variant == 0:
+            return "raw", None
+        rets[0].ret = rets[0].ret.fields[0]
+        if not isinstance(rets[0].ret, Adt):
+            return "error", "%s(0x%02X) yields an unknown escape" % (fet.path, b)
     variant = rets[0].ret
-    S2 = sim.Sim([crate], inline=lambda a, b: b.path in fwd)
+    S2 = sim.Sim([crate], inline=lex.print_inline(crate))
     rets2, _ = _ret_one(S2, wr, {2: variant})
     texts = set()
     for p in rets2:
